@@ -125,6 +125,10 @@ class NP:
       return None
     st = cx.st(base)
     if not st.shape.concrete:
+      from .contracts import refine_rank
+      refine_rank(p, base)
+      st = cx.st(base)
+    if not st.shape.concrete:
       raise Unsupported('indexing a symbolic-rank array (line %s)' % cx.line())
     items = idx.items if isinstance(idx, VTuple) else [idx]
     return self.index(cx, base, st, items)
@@ -321,6 +325,10 @@ class NP:
     if isinstance(v, VArr):
       st = cx.st(v)
       if not st.shape.concrete:
+        from .contracts import refine_rank
+        refine_rank(cx.p, v)
+        st = cx.st(v)
+      if not st.shape.concrete:
         raise Unsupported('arithmetic on symbolic-rank array')
       return st.term, list(st.shape.dims), st.kind, None
     t = scalar_term(cx, v)
@@ -342,6 +350,12 @@ class NP:
       kind = promote(kind, 'f')
     term = None
     same = len(ld) == len(rd) and all(z3.simplify(x).eq(z3.simplify(y)) for x, y in zip(ld, rd))
+    if not same and len(ld) == len(rd) and ld and lt is not None and rt is not None:
+      sv = z3.Solver()
+      sv.set(timeout=800)
+      sv.add(*p.pc)
+      sv.add(z3.Or(*[x != y for x, y in zip(ld, rd)]))
+      same = sv.check() == z3.unsat
     if lt is not None and rt is not None and same:
       if isinstance(op, ast.Sub):
         term = TH.sub(lt, rt)
@@ -484,6 +498,8 @@ def install(lib):
         return VBool(bool(tn & names))
     if isinstance(v, VObj):
       return VBool(any(n in cx.ex.prog.classes[v.cls].mro for n in names))
+    if isinstance(v, VOpaque):
+      return VBool(fresh('isinstance', z3.BoolSort()))
     if isinstance(v, VRef):
       if v.types is not None:
         # the contract states the python type set of this opaque value
@@ -572,8 +588,15 @@ def install(lib):
 
   @ext('builtins.str')
   def _str(cx, *a):
+    if len(a) == 1 and isinstance(a[0], VInt) and a[0].conc() is not None:
+      return VStr(str(a[0].conc()))
+    if len(a) == 1 and isinstance(a[0], VStr):
+      return a[0]
     return VOpaque('msg')
-  ext('builtins.repr')(_str)
+
+  @ext('builtins.repr')
+  def _repr(cx, *a):
+    return VOpaque('msg')
 
   @ext('builtins.type')
   def _type(cx, v):
@@ -787,7 +810,7 @@ def install(lib):
           return VInt(t)
         if name in ('max', 'min', 'amax'):
           cx.may_raise('ValueError', st.shape.size() == 0, 'zero-size array to reduction')
-        f = {'sum': TH.vsum}.get(name) if r == 1 else None
+        f = {'sum': TH.vsum, 'mean': TH.vmean}.get(name) if r == 1 else None
         t = f(st.term) if (f is not None and st.term is not None) else None
         if kind in ('i', 'b'):
           return VInt(z3.ToInt(t) if t is not None else fresh(name, z3.IntSort()))
@@ -854,7 +877,19 @@ def install(lib):
       cx.p.assume(nd >= 0)
       cx.p.assume(nd <= st.shape.ndim())
       return cx.p.new_loc(ArrState(fresh('sq', T), Shape(nd, dims), st.kind, st.owner))
-    raise Unsupported('squeeze on concrete rank')
+    # concrete rank: every axis of length 1 disappears (fork on each axis)
+    out = []
+    import itertools
+    for keep in itertools.product([True, False], repeat=st.shape.rank):
+      q = cx.p.fork()
+      for k, d in zip(keep, st.shape.dims):
+        q.assume(d != 1 if k else d == 1)
+      if not feasible(q.pc):
+        continue
+      dims = [d for k, d in zip(keep, st.shape.dims) if k]
+      out.append((q, q.new_loc(ArrState(st.term if all(keep) or st.shape.rank == 1 else TH.squeezeT(st.term), Shape(len(dims), dims),
+                                        st.kind, st.owner, (a.loc, st.version)))))
+    return out
 
   def dtype_kind(d):
     if isinstance(d, VExt):
